@@ -29,13 +29,13 @@ class Scn:
 def q(s):
     return '"' + s.replace('\\', '\\\\').replace('"', '\\"') + '"'
 
-def conf_text(moddir, with_xq, with_class, svcs, rules, timeout, logs=None):
+def conf_text(moddir, with_xq, with_class, svcs, rules, timeout, logs=None, omit_empty=False):
     mods = ["iauth"] + (["iauth_xquery"] if with_xq else []) + (["iauth_class"] if with_class else [])
     t = 'core {\n library_path ( "%s" )\n modules ( %s )\n}\n' % (moddir, ", ".join(mods))
     t += 'iauth { timeout %d }\n' % timeout
-    if with_xq:
+    if with_xq and not (omit_empty and not svcs):
         t += 'iauth_xquery {\n' + ''.join(' %s %s\n' % (q(n), q(ty)) for n, ty in svcs) + '}\n'
-    if with_class:
+    if with_class and not (omit_empty and not rules):
         t += 'iauth_class {\n'
         for r in rules:
             t += ' %s {' % q(r['name'])
@@ -350,7 +350,7 @@ def run_daemon(impl, scn, marker=True, chunking=None, logs=None, extra_env=None,
     d = Path(tempfile.mkdtemp(dir=str(BUILD / "tmp"), prefix="d"))
     try:
         conf = d / "iauthd.conf"
-        conf.write_text(conf_text(str(impl / "mods"), scn.with_xq, scn.with_class, scn.svcs, scn.rules, scn.timeout, logs), encoding="latin1")
+        conf.write_text(conf_text(str(impl / "mods"), scn.with_xq, scn.with_class, scn.svcs, scn.rules, scn.timeout, logs, getattr(scn, 'omit_empty', False)), encoding="latin1")
         env = dict(SAN_ENV)
         if extra_env: env.update(extra_env)
         res = DaemonResult()
@@ -393,7 +393,7 @@ def run_daemon(impl, scn, marker=True, chunking=None, logs=None, extra_env=None,
                         send(it[1] + b"\n" + (MARK if marker else b"")); nmark += 1 if marker else 0
                     else:
                         pump(nmark)      # everything before the reload has been processed
-                        conf.write_text(conf_text(str(impl / "mods"), scn.with_xq, scn.with_class, it[1], it[2], it[3], logs), encoding="latin1")
+                        conf.write_text(conf_text(str(impl / "mods"), scn.with_xq, scn.with_class, it[1], it[2], it[3], logs, getattr(scn, 'omit_empty', False)), encoding="latin1")
                         send(b"-1 ! reload\n" + (MARK if marker else b"")); nmark += 1 if marker else 0
                         pump(nmark)
                 p.stdin.close()
